@@ -9,15 +9,18 @@ import (
 // machine is. A loop that consumes no input burns processor time: f is given up as hanging once this process has
 // used cpu of processor time since the call (a parser call on a few hundred kilobytes needs a second or two), or
 // when it has been blocked without using any for a minute. While the process is merely starved of the
-// processor (dozens of jobs sharing the machine) the call is waited for, for up to fifteen minutes of wall time;
-// f's goroutine is left behind when it is given up.
+// processor (dozens of jobs sharing the machine) the call is waited for, for up to fifteen minutes; f's goroutine
+// is left behind when it is given up. Minutes are counted in one-second ticks this process lived through, not
+// read off the clock: when the virtual machine is paused or stalls the clock jumps, and a ticker drops the ticks
+// it missed.
 func Bounded(cpu time.Duration, f func()) (hung bool) {
 	done := make(chan struct{})
 	go func() {
 		defer close(done)
 		f()
 	}()
-	start, used0 := time.Now(), processCPU()
+	used0 := processCPU()
+	ticks := 0
 	tick := time.NewTicker(time.Second)
 	defer tick.Stop()
 	for {
@@ -25,13 +28,14 @@ func Bounded(cpu time.Duration, f func()) (hung bool) {
 		case <-done:
 			return false
 		case <-tick.C:
-			wall, used := time.Since(start), processCPU()-used0
+			ticks++
+			used := processCPU() - used0
 			switch {
 			case used >= cpu:
 				return true
-			case wall >= time.Minute && used < time.Second:
+			case ticks >= 60 && used < time.Second:
 				return true // blocked, not computing
-			case wall >= 15*time.Minute:
+			case ticks >= 15*60:
 				return true
 			}
 		}
@@ -44,4 +48,20 @@ func processCPU() time.Duration {
 		return 0
 	}
 	return time.Duration(ru.Utime.Nano() + ru.Stime.Nano())
+}
+
+// After20s is time.After(20 s) for the probes that run real code against the real clock and give a call up
+// as never ending: the channel is closed after twenty one-second ticks this process lived through (see
+// Bounded), so that a clock that jumps while the virtual machine is paused does not end the wait.
+func After20s() <-chan struct{} {
+	c := make(chan struct{})
+	go func() {
+		tick := time.NewTicker(time.Second)
+		defer tick.Stop()
+		for i := 0; i < 20; i++ {
+			<-tick.C
+		}
+		close(c)
+	}()
+	return c
 }
